@@ -6,6 +6,7 @@ def parseStep (s : String) : Option Op :=
   match s.splitOn ":" with
   | ["v", c] => c.toNat?.map Op.verify
   | ["b", c] => c.toNat?.map Op.finalizeBad
+  | ["x", c] => c.toNat?.map Op.verifyBad
   | ["f", c, i, a] =>
     match c.toNat?, i.toNat?, a.toNat? with
     | some c, some i, some a => some (Op.finalize c i a)
